@@ -19,6 +19,33 @@ def tol_for(n, cond):
     return 100 * n * n * X.EPS * cond
 
 
+def through_samples(ctx):
+    """the decomposition a SAMPLE reports (Metadata.decompoisiton_result) is the decomposition of the L matrix it reports (Metadata.l_matrix):
+    same exact-rational oracle as for the routine called directly; multi-loop graphs, kinematic scales 2^-33 .. 2^30 (the rescaled Feynman
+    parameters, hence the entries of L, span many binades)"""
+    from .. import samples as S
+    ss = S.generate(ctx, 8 if ctx.quick else 40, 3, max_e=6, max_loops=4, routings_per_graph=1, kinds=("uniform",),
+                    names=["sunrise", "double_triangle", "kite", "banana4", "mercedes", "bubble_chain", "banana5"],
+                    scales=(1, Fraction(1, 2 ** 33), 2 ** 30, Fraction(1, 2 ** 10), 2 ** 12))
+    S.run(ss)
+    for s in ss:
+        a = s["impl"]
+        if a.get("status") != "ok" or not a.get("meta"):
+            continue
+        n = s["routing"]["L"]
+        lb = a["meta"]["l"]; dec = a["meta"].get("decomp") or {}
+        if dec.get("status") != "ok" or not all(X.is_finite_bits(b) for b in lb):
+            continue
+        Af = X.mat_from_bits(n, lb)
+        if not X.leading_minors_positive(Af):
+            continue
+        cond = X.cond_inf(Af)
+        if cond is None or cond > 10 ** 9:
+            ctx.count("through_samples.cond_skipped"); continue
+        ctx.case(["through_sample", lb], nontrivial=n >= 2); ctx.count("through_samples.checked"); ctx.count(f"through_samples.n={n}")
+        check_outputs(ctx, dict(S.small_req(s), through="sample: Metadata.decompoisiton_result vs Metadata.l_matrix"), n, Af, cond, dec)
+
+
 def check_outputs(ctx, req, n, A, cond, out):
     """exact-rational oracle on the implementation's four outputs"""
     t = tol_for(n, cond)
@@ -139,3 +166,16 @@ def run(ctx):
             if d:
                 ctx.mismatch("decompose model vs decompose_for_tropical", r, a, m, f"{k}: {d}"); break
         check_outputs(ctx, r, n, Af, cond, a)
+    through_samples(ctx)
+    # the routine is generic: with a user scalar type (double-double: hi + lo pairs) the same matrices give the same decomposition - the high
+    # parts are fed to the same exact-rational oracle with the f64 tolerance
+    sel = [(r, inf) for r, inf in zip(reqs, infos) if inf[1] != "subnormal_det"][:: (9 if ctx.quick else 3)]
+    dreqs = [{"op": "decomp_dd", "n": r["n"], "a": r["a"]} for r, _ in sel]
+    for rq, d, (_, (n, fam, Af, cond)) in zip(dreqs, run_harness(dreqs), sel):
+        ctx.count("generic_scalar_decomposition")
+        if d.get("status") == "panic" or "error" in d:
+            ctx.violation("decompose_for_tropical panics / fails with a double-double scalar on an SPD matrix", rq, observed=d); continue
+        if d.get("status") != "ok":
+            ctx.violation(f"decompose_for_tropical with a double-double scalar returns {d.get('status')} for an SPD matrix with cond {float(cond):.2e}", rq, observed=d); continue
+        hi = {"det": d["det"][0], "inv": [p[0] for p in d["inv"]], "qt": [p[0] for p in d["qt"]], "qti": [p[0] for p in d["qti"]]}
+        check_outputs(ctx, dict(rq, scalar="double-double (high parts judged)"), n, Af, cond, hi)
